@@ -71,7 +71,15 @@ pub fn lex_number(source: &[char]) -> Option<FoundToken> {
         return None;
     }
 
-    let end = source
+    // Only look at the run of characters that can be part of a decimal number. Looking further
+    // makes the result depend on digits that appear anywhere later in the text (and costs time
+    // proportional to the rest of the document for every number).
+    let run_len = source
+        .iter()
+        .take_while(|c| c.is_ascii_digit() || matches!(c, '.' | 'e' | 'E' | '+' | '-'))
+        .count();
+
+    let end = source[..run_len]
         .iter()
         .enumerate()
         .rev()
@@ -81,6 +89,12 @@ pub fn lex_number(source: &[char]) -> Option<FoundToken> {
 
     // Find the longest possible valid number
     while !s.is_empty() {
+        // A number ends in a digit: `5.` is the number five followed by a period.
+        if !s.ends_with(|c: char| c.is_ascii_digit()) {
+            s.pop();
+            continue;
+        }
+
         if let Ok(n) = s.parse::<f64>() {
             let precision = s.chars().rev().position(|c| c == '.').unwrap_or_default();
 
